@@ -17,4 +17,17 @@ PROPS = {
         "assumptions": ["theorems hold for every structurally well-formed lookup table; that the table built with f64 arithmetic equals the one built exactly is checked at run time by the driver, not proved",
                         "accuracy in [0,1] and max_den <= 64 (the documented preconditions; callers are checked under C03/C16)"],
     },
+    "C19": {
+        "gen": [],
+        "pre_build": ["prep_bindings.py"],   # scratch copy of $REPO/bindings with an rlib (harness/target/bindings_copy)
+        "features": ["ffi"],
+        "trusted_base": COMMON_TB + [FLOAT_TB,
+            "translators/prep_bindings.py: the bindings crate is compiled from a copy of the working tree's bindings/src with only its manifest edited (package renamed, \"lib\" crate type added, core path made absolute)",
+            "uniffi 0.28 record/enum (de)serialisation (FfiConverter::write/try_read) is how the harness builds and reads `Amount`/`Ingredient` values whose fields are crate-private; uniffi scaffolding itself is not modelled",
+            "the recipe S-expression sent to the model is produced from the real ScaledRecipe through its public accessors (harness/src/recipe_sexp.rs)"],
+        "assumptions": ["mirror theorems: the core recipe's item indices are in range (C06's invariant) and it has at most 2^32 components of each kind (`usize as u32` in into_item)",
+                        "combination theorems are over exact rationals and lists of at most 2^32 ingredients; text amounts are concatenated in input order and are outside the order-independence statement",
+                        "the view's metadata map is not modelled (the property does not mention it)",
+                        "Range amounts, Number::Fraction values and inline-quantity items cannot be produced through parse_recipe (canonical parser, empty converter): those branches of into_simple_recipe are covered by the theorems on the model only; ranges in combine_ingredients are exercised through the FFI wire format"],
+    },
 }
